@@ -48,6 +48,20 @@ structure Config where
   codec : Codec
   /-- machine resources of the generic decoder (Model/Resp) -/
   env : Env
+  /-- `false` = the four recognisers and the batching gate as they are; `true` = as REPAIRED by the
+      prepared fix (`fixes-conn-s4`): every recogniser also wants LF after the CR of a length line,
+      wants the key to be valid UTF-8 (the shard takes it as `&str`), and answers "not a fast-path
+      frame" — never "need more data" — to anything it does not take, so that the generic decoder
+      alone decides between "incomplete" and "protocol error"; the frames a collector consumed are
+      executed also when there are fewer than `batch_threshold` of them (one at a time, through
+      `pooled_fast_get` / `pooled_fast_set`); the batching gate asks `user_has_unrestricted_keys()`
+      like the fast path does.  (`HEADER_LEN` stays the separate parameter `headerLen`: the fix
+      sets it to 13.)  Read from the SOURCE by `./check` (`VERIF_C04_INCOMPLETE`). -/
+  repaired : Bool := false
+  /-- `user_has_unrestricted_keys()`: the authenticated ACL user has `~*`.  `true` for the default
+      user (the only one the pinned build without the `acl` feature has); with `false` the code
+      never enters `try_fast_path` (and, repaired, never runs the collectors) -/
+  unrestricted : Bool := true
 
 /-- `*2\r\n$3\r\nGET\r\n` and the lower-case variant the code also accepts -/
 def getHdrU : Bytes := [42, 50, 13, 10, 36, 51, 13, 10, 71, 69, 84, 13, 10]
@@ -161,6 +175,80 @@ def recogSet (h : Nat) (ck : Bool) (buf : Bytes) : Recog :=
                       | some key, some val => .set key val total
                       | _, _ => .crash
 
+/-- REPAIRED body shared by `collect_get_keys` and `try_fast_get` (prepared fix): the CR that ends
+    the length line must be followed by LF, the key must be valid UTF-8, and whatever is not taken
+    is `notFast` (collector: `break`) — never `needMore` -/
+def recogGetR (h : Nat) (buf : Bytes) : Recog :=
+  if ¬ (startsWith buf getHdrU || startsWith buf getHdrL) then .notFast
+  else if buf.length < h + 1 then .notFast
+  else
+    let after := buf.drop h
+    if after.head? ≠ some 36 then .notFast
+    else
+      match memchrCR (after.drop 1) with
+      | none => .notFast
+      | some crlfPos =>
+        let lenEnd := crlfPos + 1
+        -- `after_header.get(len_end + 1) != Some(&b'\n')`
+        if after[lenEnd + 1]? ≠ some 10 then .notFast
+        else
+          match parseUsize ((after.drop 1).take crlfPos) with
+          | none => .notFast
+          | some keyLen =>
+            let keyStart := h + 1 + lenEnd + 1
+            match (addU true keyStart keyLen).bind (fun e => addU true e 2) with
+            | none => .notFast
+            | some total =>
+              if buf.length < total then .notFast
+              else
+                match slice buf keyStart (keyStart + keyLen) with
+                | none => .crash
+                | some key => if validUtf8 key then .get key total else .notFast
+
+/-- REPAIRED body shared by `collect_set_pairs` and `try_fast_set` -/
+def recogSetR (h : Nat) (buf : Bytes) : Recog :=
+  if ¬ (startsWith buf setHdrU || startsWith buf setHdrL) then .notFast
+  else if buf.length < h + 1 then .notFast
+  else
+    let after := buf.drop h
+    if after.head? ≠ some 36 then .notFast
+    else
+      match memchrCR (after.drop 1) with
+      | none => .notFast
+      | some keyLenCrlf =>
+        -- `after_header.get(key_len_crlf + 2) != Some(&b'\n')`
+        if after[keyLenCrlf + 2]? ≠ some 10 then .notFast
+        else
+          match parseUsize ((after.drop 1).take keyLenCrlf) with
+          | none => .notFast
+          | some keyLen =>
+            let keyStart := h + 1 + keyLenCrlf + 2
+            match (addU true keyStart keyLen).bind (fun e => (addU true e 2).map (fun v => (e, v))) with
+            | none => .notFast
+            | some (keyEnd, valLenStart) =>
+              if buf.length ≤ valLenStart then .notFast
+              else if buf[valLenStart]? ≠ some 36 then .notFast
+              else
+                let afterKey := buf.drop (valLenStart + 1)
+                match memchrCR afterKey with
+                | none => .notFast
+                | some valLenCrlf =>
+                  -- `after_key.get(val_len_crlf + 1) != Some(&b'\n')`
+                  if afterKey[valLenCrlf + 1]? ≠ some 10 then .notFast
+                  else
+                    match parseUsize (afterKey.take valLenCrlf) with
+                    | none => .notFast
+                    | some valLen =>
+                      let valStart := valLenStart + 1 + valLenCrlf + 2
+                      match (addU true valStart valLen).bind (fun e => addU true e 2) with
+                      | none => .notFast
+                      | some total =>
+                        if buf.length < total then .notFast
+                        else
+                          match slice buf keyStart keyEnd, slice buf valStart (valStart + valLen) with
+                          | some key, some val => if validUtf8 key then .set key val total else .notFast
+                          | _, _ => .crash
+
 /-- which code path carried a command -/
 inductive Path where
   | generic | fast | batch
@@ -178,6 +266,39 @@ inductive Action where
 def bulkS (b : Bytes) : Val := .bulk b
 def getFrame (key : Bytes) : Val := .array [.bulk [71, 69, 84], .bulk key]
 def setFrame (key val : Bytes) : Val := .array [.bulk [83, 69, 84], .bulk key, .bulk val]
+
+/-- the command name as it stands in the buffer (`GET` / `get` / `SET` / `set`: bytes 8–10 of a
+    frame whose 13-byte header matched) -/
+def nameIn (buf : Bytes) : Bytes := (buf.drop 8).take 3
+
+/-- the frame a REPAIRED recogniser took, with the name as the client wrote it (what a command DOES
+    is outside this model: the code calls `get_direct(key)` / `set_direct(key, value)`) -/
+def getFrameN (buf key : Bytes) : Val := .array [.bulk (nameIn buf), .bulk key]
+def setFrameN (buf key val : Bytes) : Val := .array [.bulk (nameIn buf), .bulk key, .bulk val]
+
+/-- REPAIRED `collect_get_keys` -/
+def collectGetR (h : Nat) : Nat → Bytes → Option (List Val × Bytes)
+  | 0, buf => some ([], buf)
+  | f + 1, buf =>
+    match recogGetR h buf with
+    | .get key total =>
+      match collectGetR h f (buf.drop total) with
+      | some (ks, r) => some (getFrameN buf key :: ks, r)
+      | none => none
+    | .crash => none
+    | _ => some ([], buf)
+
+/-- REPAIRED `collect_set_pairs` -/
+def collectSetR (h : Nat) : Nat → Bytes → Option (List Val × Bytes)
+  | 0, buf => some ([], buf)
+  | f + 1, buf =>
+    match recogSetR h buf with
+    | .set key val total =>
+      match collectSetR h f (buf.drop total) with
+      | some (ks, r) => some (setFrameN buf key val :: ks, r)
+      | none => none
+    | .crash => none
+    | _ => some ([], buf)
 
 /-- `collect_get_keys`: recognised frames and the remaining buffer; `none` = panic -/
 def collectGet (h : Nat) (ck : Bool) : Nat → Bytes → Option (List Val × Bytes)
@@ -276,18 +397,44 @@ def fastPath (h : Nat) (ck : Bool) (inTx : Bool) (buf : Bytes) : Recog :=
     | .notFast => recogSet h ck buf
     | r => r
 
+/-- REPAIRED `try_fast_path` -/
+def fastPathR (h : Nat) (inTx : Bool) (buf : Bytes) : Recog :=
+  if inTx then .notFast
+  else if buf.length < 12 then .notFast
+  else
+    match recogGetR h buf with
+    | .notFast => recogSetR h buf
+    | r => r
+
+/-- `if self.user_has_unrestricted_keys() && !self.in_transaction { try_fast_path() }` of the
+    configured code (as it is / repaired) -/
+def fastPathC (cfg : Config) (inTx : Bool) (buf : Bytes) : Recog :=
+  if cfg.unrestricted then
+    (if cfg.repaired then fastPathR cfg.headerLen inTx buf else fastPath cfg.headerLen cfg.checked inTx buf)
+  else .notFast
+
+def collectGetC (cfg : Config) (fuel : Nat) (buf : Bytes) : Option (List Val × Bytes) :=
+  if cfg.repaired then collectGetR cfg.headerLen fuel buf else collectGet cfg.headerLen cfg.checked fuel buf
+
+def collectSetC (cfg : Config) (fuel : Nat) (buf : Bytes) : Option (List Val × Bytes) :=
+  if cfg.repaired then collectSetR cfg.headerLen fuel buf else collectSet cfg.headerLen cfg.checked fuel buf
+
+/-- the frame of an action the fast path carried -/
+def getFrameC (cfg : Config) (buf key : Bytes) : Val := if cfg.repaired then getFrameN buf key else getFrame key
+def setFrameC (cfg : Config) (buf key val : Bytes) : Val := if cfg.repaired then setFrameN buf key val else setFrame key val
+
 /-- the sequential loop: `try_execute_command` until NeedMoreData / ParseError.
     Returns actions, remaining buffer, in_transaction, crashed? -/
 def seqLoop (cfg : Config) : Nat → Bytes → Bool → List Action × Bytes × Bool × Bool
   | 0, buf, inTx => ([], buf, inTx, false)
   | f + 1, buf, inTx =>
-    match fastPath cfg.headerLen cfg.checked inTx buf with
+    match fastPathC cfg inTx buf with
     | .get key total =>
       let (as, r, tx, cr) := seqLoop cfg f (buf.drop total) inTx
-      (.exec (getFrame key) .fast :: as, r, tx, cr)
+      (.exec (getFrameC cfg buf key) .fast :: as, r, tx, cr)
     | .set key val total =>
       let (as, r, tx, cr) := seqLoop cfg f (buf.drop total) inTx
-      (.exec (setFrame key val) .fast :: as, r, tx, cr)
+      (.exec (setFrameC cfg buf key val) .fast :: as, r, tx, cr)
     | .needMore => ([], buf, inTx, false)
     | .crash => ([.crash], [], inTx, true)
     | .notFast =>
@@ -302,18 +449,22 @@ def seqLoop (cfg : Config) : Nat → Bytes → Bool → List Action × Bytes × 
       | .crash _ => ([.crash], [], inTx, true)
 
 /-- actions for the frames a collector consumed: executed as one batch if there are at least
-    `batch_threshold` of them, otherwise nothing happens with them -/
+    `batch_threshold` of them; otherwise nothing happens with them (the code as it is) / they are
+    executed one at a time through `pooled_fast_get` / `pooled_fast_set` (repaired) -/
 def batchActs (cfg : Config) (fs : List Val) : List Action :=
-  if fs.length ≥ cfg.batchThreshold then fs.map (fun g => Action.exec g .batch) else fs.map Action.dropped
+  if fs.length ≥ cfg.batchThreshold then fs.map (fun g => Action.exec g .batch)
+  else if cfg.repaired then fs.map (fun g => Action.exec g .fast)
+  else fs.map Action.dropped
 
 /-- the batching gate in front of the sequential loop; `none` = a collector panicked -/
 def batchGate (cfg : Config) (inTx : Bool) (fuel : Nat) (buf : Bytes) : Option (List Action × Bytes) :=
-  if buf.length ≥ cfg.minPipeline ∧ ¬ inTx then
-    match collectGet cfg.headerLen cfg.checked fuel buf with
+  -- repaired: `&& self.user_has_unrestricted_keys()`
+  if buf.length ≥ cfg.minPipeline ∧ ¬ inTx ∧ (cfg.repaired = true → cfg.unrestricted = true) then
+    match collectGetC cfg fuel buf with
     | none => none
     | some (gets, b1) =>
       if b1.length ≥ cfg.minPipeline then
-        match collectSet cfg.headerLen cfg.checked fuel b1 with
+        match collectSetC cfg fuel b1 with
         | none => none
         | some (sets, b2) => some (batchActs cfg gets ++ batchActs cfg sets, b2)
       else some (batchActs cfg gets, b1)
